@@ -2,6 +2,7 @@ import SluProofs.Lemmas.LUInv
 import SluProofs.Lemmas.CxRat
 import SluProofs.Lemmas.LUSchedule
 import SluProofs.Lemmas.DfsTopo
+import SluProofs.Lemmas.Prune
 /-
 C02 — Factors reproduce the permuted matrix; pivoting bounds hold.
 
@@ -34,16 +35,39 @@ a depth-first search, supernode by supernode, in a topological order.  What is p
   (`snodeSegs`), provided the structure of a supernode contains the numeric structure below the
   diagonal block of each of its columns;
 * `validSchedule_filter` (Lemmas/DfsTopo.lean): a column of a panel may take its segments out of a
-  longer topological list (the panel-wide `segrep` of [sdcz]panel_dfs).
+  longer topological list (the panel-wide `segrep` of [sdcz]panel_dfs);
+* SYMMETRIC PRUNING ([sdcz]pruneL.c; Lemmas/Prune.lean).  The searches do not scan the full lists:
+  once a column `c` is factored, the list of every `k` that forms a symmetric pair with `c` is cut
+  down to its rows `≤ c` (`pruneAdj p adj`, `p k = some c`).  Proved for ANY cuts `p` that satisfy
+  `PruneOkAdj` (`c ∈ adj k`, and every `r ∈ adj k` beyond `c` is in `adj c` — the fill property (F) of
+  the symbolic structure for that pair; `Symb.fillSym_colStruct` derives (F) from `ColReach.step` for
+  every symmetric pair, so any choice of symmetric pairs is legal, `Symb.pruneOk_of_symPair`):
+  - `prune_preserves_reach`, `prune_preserves_newRows`: on relations, for every `t` the pruned graph
+    `G'_t` has the same reachability as the full graph `G_t`, and a search meets the same rows —
+    the pivotal ones it follows and the non-pivotal ones (`≥ t`) it collects as new rows of L;
+  - `dfsPost_pruned_same_vertices`, `dfsPost_pruned_topo_full`: the executable search on the pruned
+    lists visits exactly the same columns (`segrep` is a permutation of the unpruned one) and lists
+    every column before ALL its successors in the FULL lists, also those whose edge was cut
+    (`dfsPost_topo_reach`: a depth-first postorder respects reachability, not only edges);
+  - `luFactor_pruned_dfs_validSchedule`, `luFactor_pruned_dfs_schedule`, `luFactor_pruned_dfs`: hence
+    the reverse postorder of the PRUNED search is a valid schedule whenever the FULL pattern
+    contains the numeric one, and the factorization that eliminates every column along it equals
+    `luFactor` (cuts may change from column to column and depend on the factors so far).
 What REMAINS tied by correspondence only (family `symb`), not by a theorem: that the C routines
 [sdcz]panel_dfs / [sdcz]column_dfs — iterative search with an explicit stack (`parent`, `xplore`),
-PRUNED adjacency lists (`xprune`), marker arrays shared across a panel — compute this search on a
-pattern (`xlsub`/`lsub`, `xsup`/`supno`) that contains the numeric one and satisfies the supernode
-hypothesis, and that `segrep`/`repfnz` as consumed by [sdcz]panel_bmod / column_bmod are the lists
-`snodeSegs` models.  (panel_bmod applies the segments that end before the panel, column_bmod then
-those inside the panel: two cuts of one topological order, which the "any grouping" form of
-`validSchedule_of_closedTopo` covers.  Pruning removes only edges whose target stays reachable
-through another path; that it leaves the reach unchanged is part of the `symb` correspondence.)
+marker arrays shared across a panel — compute this search on a pattern (`xlsub`/`lsub`,
+`xsup`/`supno`) that contains the numeric one and satisfies the supernode hypothesis, and that
+`segrep`/`repfnz` as consumed by [sdcz]panel_bmod / column_bmod are the lists `snodeSegs` models.
+(panel_bmod applies the segments that end before the panel, column_bmod then those inside the
+panel: two cuts of one topological order, which the "any grouping" form of
+`validSchedule_of_closedTopo` covers.)  For pruning what remains is that [sdcz]pruneL.c computes
+such a `p` — it cuts `k` at the first column `c` with `k ∈ segrep(c)`, `repfnz ≠ EMPTY` and
+`pivrow(c) ∈ lsub(k)`, i.e. at a symmetric pair, keeps exactly the rows with `perm_r ≠ EMPTY`
+(`≤ c` in pivot numbering) in front of `xprune[k]`, and never cuts twice — and that the C searches
+scan exactly `xlsub[k] .. xprune[k]-1`.  The pruning theorems are at COLUMN level (one column per
+node, as `luFactor_dfs`); the combination with supernode representatives (`snodeSegs`; the C code
+skips the cut when `k` and `k+1` share a supernode and cuts the shared list of a supernode through
+its last column) is not proved.
 -/
 namespace Slu.LU
 open Slu
@@ -377,6 +401,106 @@ theorem luFactor_dfs_numeric [DecidableEq K] (laws : MagLaws K) (P : Params K Ra
   · intro j _ _ k hk hne
     exact (mem_numRoots _ j _ k).mpr ⟨hk, hne⟩
 
+/-! #### symmetric pruning (Lemmas/Prune.lean) -/
+
+/-- **C02 (pruning preserves the reach).** `struct k r`: row `r` (pivot numbering) is in struct(L_k);
+`p k = some c`: the list of `k` has been cut at column `c`, where `(k, c)` is any pair with `k < c`,
+`c ∈ struct k` and the fill property `r ∈ struct k, r > c ⟹ r ∈ struct c` (`PruneOk`; true for every
+symmetric pair of the symbolic structure, `Symb.pruneOk_colStruct`).  For every column `t`: the
+pruned graph `G'_t` (`k → r` iff `k, r < t`, `r ∈ struct k`, and `r ≤ c` if `k` was cut at a `c < t`)
+and the full graph `G_t` have the same reachability, from every set of roots. -/
+theorem prune_preserves_reach (struct : Nat → Nat → Prop) (p : Nat → Option Nat) (hp : Symb.PruneOk struct p)
+    (t : Nat) (roots : Nat → Prop) (x : Nat) :
+    (∃ s, roots s ∧ Relation.ReflTransGen (Symb.PrunedEdge struct p t) s x) ↔
+    (∃ s, roots s ∧ Relation.ReflTransGen (Symb.FullEdge struct t) s x) :=
+  Symb.prune_reach_roots hp t roots x
+
+/-- **C02 (pruning preserves the collected rows).** The NON-pivotal rows `r ≥ t` met by the search for
+column `t` (rows `own` of the column itself, and rows in the scanned list of a reached column) — the
+new rows of `L(:,t)` — are the same on the pruned lists as on the full lists. -/
+theorem prune_preserves_newRows (struct : Nat → Nat → Prop) (p : Nat → Option Nat) (hp : Symb.PruneOk struct p)
+    (t : Nat) (roots own : Nat → Prop) (r : Nat) :
+    (t ≤ r ∧ Symb.HitsPruned struct p t roots own r) ↔ (t ≤ r ∧ Symb.HitsFull struct t roots own r) :=
+  Symb.prune_newRows hp t roots own r
+
+/-- **C02 (the pruned search visits the same columns).** `segrep` of the search on the cut lists is a
+duplicate-free list with exactly the members of `segrep` of the search on the full lists. -/
+theorem dfsPost_pruned_same_vertices (adj : Nat → List Nat) (j : Nat) (p : Nat → Option Nat) (roots : List Nat)
+    (hadj : ∀ k, ∀ r ∈ adj k, k < r ∧ r < j) (hrootlt : ∀ r ∈ roots, r < j) (hprune : PruneOkAdj adj p) :
+    (∀ x, x ∈ dfsPost j (pruneAdj p adj) roots ↔ x ∈ dfsPost j adj roots) ∧
+    (dfsPost j (pruneAdj p adj) roots).Nodup ∧
+    (dfsPost j (pruneAdj p adj) roots).Perm (dfsPost j adj roots) :=
+  ⟨mem_dfsPost_pruneAdj hadj hprune roots hrootlt, dfsPost_nodup (pruneAdj_bound hadj) roots hrootlt,
+    dfsPost_pruneAdj_perm hadj hprune roots hrootlt⟩
+
+/-- **C02 (the pruned postorder is topological for the FULL lists).** Every successor `r` of a listed
+column `k` in the FULL adjacency — cut or not — occurs before `k` in the postorder of the pruned
+search. -/
+theorem dfsPost_pruned_topo_full (adj : Nat → List Nat) (j : Nat) (p : Nat → Option Nat) (roots : List Nat)
+    (hadj : ∀ k, ∀ r ∈ adj k, k < r ∧ r < j) (hrootlt : ∀ r ∈ roots, r < j) (hprune : PruneOkAdj adj p)
+    (k : Nat) (hk : k ∈ dfsPost j (pruneAdj p adj) roots) (r : Nat) (hr : r ∈ adj k) :
+    List.Sublist [r, k] (dfsPost j (pruneAdj p adj) roots) :=
+  dfsPost_pruneAdj_topo_full hadj hprune roots hrootlt k hk r hr
+
+/-- **C02 (the order of the PRUNED search is a valid schedule).** As `luFactor_dfs_validSchedule`, but the
+search runs on the lists `pruneAdj p adj` cut by any legal `p` (`PruneOkAdj`); the FULL pattern `adj`
+contains the numerically nonzero one (`hpat`).  A numeric dependency `k → k'` whose edge was cut is
+still respected: `k'` stays reachable from `k`, and a depth-first order respects reachability. -/
+theorem luFactor_pruned_dfs_validSchedule (P : Params K Rat) (st : St K) (j : Nat) (h : Inv P st j)
+    (adj : Nat → List Nat) (roots : List Nat) (p : Nat → Option Nat)
+    (hadj : ∀ k, ∀ r ∈ adj k, k < r ∧ r < j) (hrootlt : ∀ r ∈ roots, r < j)
+    (hprune : PruneOkAdj adj p)
+    (hpat : ∀ k k', k < k' → k' < j → (st.L.getD k #[]).get (st.piv.getD k' 0) ≠ 0 → k' ∈ adj k)
+    (hroots : ∀ k < j, (P.col j).get (st.piv.getD k 0) ≠ 0 → k ∈ roots)
+    (bs : List (List (Nat × Vec K)))
+    (hbs : bs.flatten = (dfsSchedule st j (pruneAdj p adj) roots).flatten) :
+    ValidSchedule (prev st j) (P.col j) bs := by
+  have hlen : (prev st j).length = j := prev_length st j
+  apply validSchedule_prunedDfs (prev st j) (P.col j) adj roots p (fun k => (st.piv.getD k 0, st.L.getD k #[])) h.unit
+  · intro k hk; rw [prev_getElem]
+  · rw [hlen]; exact hadj
+  · rw [hlen]; exact hrootlt
+  · exact hprune
+  · intro k k' hkk' hk'
+    rw [prev_getElem, prev_getElem]
+    exact hpat k k' hkk' (hlen ▸ hk')
+  · intro k hk
+    rw [prev_getElem]
+    exact hroots k (hlen ▸ hk)
+  · rw [hbs, dfsSchedule, scheduleOf_flatten, hlen]
+
+/-- **C02 (one column along the order of the pruned search).** -/
+theorem luFactor_pruned_dfs_schedule (P : Params K Rat) (hP : Legal P) (st : St K) (j : Nat) (h : Inv P st j)
+    (adj : Nat → List Nat) (roots : List Nat) (p : Nat → Option Nat)
+    (hadj : ∀ k, ∀ r ∈ adj k, k < r ∧ r < j) (hrootlt : ∀ r ∈ roots, r < j)
+    (hprune : PruneOkAdj adj p)
+    (hpat : ∀ k k', k < k' → k' < j → (st.L.getD k #[]).get (st.piv.getD k' 0) ≠ 0 → k' ∈ adj k)
+    (hroots : ∀ k < j, (P.col j).get (st.piv.getD k 0) ≠ 0 → k ∈ roots) :
+    (elimBlocks (dfsSchedule st j (pruneAdj p adj) roots) (P.col j)).1 = stepW P st j ∧
+    stepBlocks P st j (dfsSchedule st j (pruneAdj p adj) roots) = step P st j :=
+  luFactor_supernodal_schedule P hP st j h _
+    (luFactor_pruned_dfs_validSchedule P st j h adj roots p hadj hrootlt hprune hpat hroots _ rfl)
+
+/-- **C02 (whole factorization along the pruned searches).** Patterns, roots AND cuts may be chosen per
+column and may depend on the factors computed so far.  As long as each full pattern contains the
+numerically nonzero pattern of its column and the cuts in force are legal for it (`PruneOkAdj`: made
+at pairs with the fill property, e.g. any symmetric pairs of the symbolic structure), the
+factorization that eliminates every column along the reverse postorder of the PRUNED depth-first
+search returns exactly `luFactor`. -/
+theorem luFactor_pruned_dfs (laws : MagLaws K) (P : Params K Rat) (hP : Legal P) (b : Bool)
+    (adj : St K → Nat → Nat → List Nat) (roots : St K → Nat → List Nat) (p : St K → Nat → Nat → Option Nat)
+    (hadj : ∀ j < P.n, ∀ k, ∀ r ∈ adj (run P b j) j k, k < r ∧ r < j)
+    (hrootlt : ∀ j < P.n, ∀ r ∈ roots (run P b j) j, r < j)
+    (hprune : ∀ j < P.n, (run P b j).info = 0 → PruneOkAdj (adj (run P b j) j) (p (run P b j) j))
+    (hpat : ∀ j < P.n, (run P b j).info = 0 → ∀ k k', k < k' → k' < j →
+      ((run P b j).L.getD k #[]).get ((run P b j).piv.getD k' 0) ≠ 0 → k' ∈ adj (run P b j) j k)
+    (hroots : ∀ j < P.n, (run P b j).info = 0 → ∀ k < j,
+      (P.col j).get ((run P b j).piv.getD k 0) ≠ 0 → k ∈ roots (run P b j) j) :
+    luFactorBlocks P b (fun st j => dfsSchedule st j (pruneAdj (p st j) (adj st j)) (roots st j)) = luFactor P b :=
+  luFactorBlocks_eq_luFactor laws P hP b _ (fun j hj h0 =>
+    luFactor_pruned_dfs_validSchedule P _ j (run_inv laws P (le_of_lt hP.u_pos) hP.u_le_one hP.col_size b j h0)
+      _ _ _ (hadj j hj) (hrootlt j hj) (hprune j hj h0) (hpat j hj h0) (hroots j hj h0) _ rfl)
+
 /-- **C02 (search on supernode representatives).** `rep k` is the last column of the supernode that
 holds column `k` (supernodes are runs of consecutive columns: `k ≤ rep k`, monotone, idempotent);
 `adjS s` lists columns beyond `s` and CONTAINS, for every column `k` of supernode `s`, the columns
@@ -613,6 +737,90 @@ example : (elimBlocks (snodeSchedule (run exE false 3) 3 exERep (fun _ => []) [0
     stepUs exE (run exE false 3) 3 = [1, -1/2, 2] ∧
     (stepBlocks exE (run exE false 3) 3 (snodeSchedule (run exE false 3) 3 exERep (fun _ => []) [0, 2])).U
       = (luFactor exE false).U := by decide +kernel
+
+/-! non-vacuity of the pruning theorems, graph level: column 0 has successors 2, 1, 3 and is cut at
+column 1 (`3, 2 ∈ adj 1`: the fill property of the pair (0, 1) holds) -/
+def exPrAdj : Nat → List Nat
+  | 0 => [2, 1, 3]
+  | 1 => [3, 2]
+  | _ => []
+def exPrCut : Nat → Option Nat
+  | 0 => some 1
+  | _ => none
+
+theorem exPr_adj : ∀ k, ∀ r ∈ exPrAdj k, k < r ∧ r < 4 := by
+  intro k r hr
+  match k with
+  | 0 => revert r; decide
+  | 1 => revert r; decide
+  | (_ + 2) => simp [exPrAdj] at hr
+
+theorem exPr_ok : PruneOkAdj exPrAdj exPrCut := by
+  intro k c h
+  match k with
+  | 0 => cases h; decide
+  | (_ + 1) => simp [exPrCut] at h
+
+/-- the cut really removes the edges `0 → 2` and `0 → 3` … -/
+example : (List.range 4).map (pruneAdj exPrCut exPrAdj) = [[1], [3, 2], [], []] := by decide
+/-- … the two searches list the same columns in DIFFERENT orders … -/
+example : dfsPost 4 exPrAdj [0] = [2, 3, 1, 0] ∧ dfsPost 4 (pruneAdj exPrCut exPrAdj) [0] = [3, 2, 1, 0] := by decide
+example := dfsPost_pruned_same_vertices exPrAdj 4 exPrCut [0] exPr_adj (by decide) exPr_ok
+example : List.Sublist [2, 0] (dfsPost 4 (pruneAdj exPrCut exPrAdj) [0]) :=
+  dfsPost_pruned_topo_full exPrAdj 4 exPrCut [0] exPr_adj (by decide) exPr_ok 0 (by decide) 2 (by decide)
+
+/-! non-vacuity of the pruning theorems on a factorization: `L_0` has nonzeros in rows 1 and 2,
+`U(0,1) ≠ 0`, so (0, 1) is a symmetric pair and the fill `L_1(2) ≠ 0` exists; for column 3 the search
+from column 0 on the cut list no longer sees the NUMERIC dependency `0 → 2`, and still orders
+0 before 2 -/
+def exRCols : Nat → Vec Rat
+  | 0 => #[2, 1, 1, 0]
+  | 1 => #[1, 3, 0, 0]
+  | 2 => #[0, 0, 4, 1]
+  | _ => #[1, 0, 0, 5]
+
+def exR : Params Rat Rat :=
+  { m := 4, n := 4, col := exRCols, u := 1, order := fun _ => [0, 1, 2, 3], oldPiv := fun _ => 0, diagRow := fun j => j }
+
+theorem exR_legal : Legal exR :=
+  ⟨by decide, by decide, by intro j; match j with | 0 => rfl | 1 => rfl | 2 => rfl | (_ + 3) => rfl⟩
+
+/-- column 0 is cut at column 1 from the moment column 1 is factored -/
+def exRCut (j k : Nat) : Option Nat := if k = 0 ∧ 2 ≤ j then some 1 else none
+
+example : (luFactor exR false).info = 0 ∧ (luFactor exR false).piv = #[0, 1, 2, 3] := by decide +kernel
+example : numAdj (run exR false 3) 3 0 = [1, 2] ∧ pruneAdj (exRCut 3) (numAdj (run exR false 3) 3) 0 = [1] ∧
+    ((run exR false 3).L.getD 0 #[]).get ((run exR false 3).piv.getD 2 0) ≠ 0 := by decide +kernel
+example : dfsRevPost 3 (pruneAdj (exRCut 3) (numAdj (run exR false 3) 3)) (numRoots (run exR false 3) 3 (exR.col 3)) = [0, 1, 2] := by
+  decide +kernel
+
+theorem exR_ok : ∀ j < 4, PruneOkAdj (numAdj (run exR false j) j) (exRCut j) := by
+  intro j hj k c h
+  unfold exRCut at h
+  split at h
+  · rename_i hk
+    obtain ⟨rfl, h2⟩ := hk
+    cases h
+    have : j = 2 ∨ j = 3 := by omega
+    rcases this with rfl | rfl <;> decide +kernel
+  · cases h
+
+example : luFactorBlocks exR false (fun st j => dfsSchedule st j (pruneAdj (exRCut j) (numAdj st j)) (numRoots st j (exR.col j)))
+    = luFactor exR false := by
+  apply luFactor_pruned_dfs magLaws_rat exR exR_legal false (fun st j => numAdj st j) (fun st j => numRoots st j (exR.col j))
+    (fun _ j => exRCut j)
+  · intro j _ k r hr
+    have := (mem_numAdj _ j k r).mp hr
+    exact ⟨this.2.1, this.1⟩
+  · intro j _ r hr
+    exact ((mem_numRoots _ j _ r).mp hr).1
+  · intro j hj _; exact exR_ok j hj
+  · intro j _ _ k k' hkk' hk' hne
+    exact (mem_numAdj _ j k k').mpr ⟨hk', hkk', hne⟩
+  · intro j _ _ k hk hne
+    exact (mem_numRoots _ j _ k).mpr ⟨hk, hne⟩
+example : (luFactorBlocks exR false (fun st j => dfsSchedule st j (pruneAdj (exRCut j) (numAdj st j)) (numRoots st j (exR.col j)))).U
+    = (luFactor exR false).U := by decide +kernel
 
 /-- the complex magnitude `|re| + |im|` over the Gaussian rationals satisfies the laws, so every
 theorem above applies verbatim to complex data (`Field (Cx Rat)` is proved in Lemmas/CxRat.lean).
